@@ -616,4 +616,769 @@ theorem axisSpec_last {f c : Nat} (hc : 1 ≤ c) (hcf : c ≤ f) : axisSpec f c 
   unfold axisSpec
   omega
 
+/-! ### `determine_coarse_dimensions` -/
+
+def DimOk (d : Dim) : Prop := 1 ≤ d.opt ∧ d.opt ≤ d.fine
+
+/-- what the theorems need from the root oracle: `⌊s⌋ ≤ ⌈s⌉` and `1 ≤ ⌈s⌉` (true of any `s > 0`) -/
+def RootOk (root : Nat → Nat → Nat → Nat × Nat) : Prop :=
+  ∀ k p q, 1 ≤ p → (root k p q).1 ≤ (root k p q).2 ∧ 1 ≤ (root k p q).2
+
+def OkZip (ds : List Dim) (os : List Nat) : Prop :=
+  os.length = ds.length ∧ ∀ q ∈ ds.zip os, 1 ≤ q.2 ∧ q.2 ≤ q.1.fine
+
+theorem hitUpdate_ok {hi : Nat} {d : Dim} (h : DimOk d) (hhi : 1 ≤ hi) :
+    DimOk (hitUpdate hi d) ∧ (hitUpdate hi d).fine = d.fine := by
+  unfold hitUpdate
+  split
+  · refine ⟨?_, rfl⟩
+    unfold DimOk at *
+    simp only
+    omega
+  · exact ⟨h, rfl⟩
+
+theorem hitUpdate_unfound {hi : Nat} {d : Dim} (h : (hitUpdate hi d).found = false) :
+    hi < (hitUpdate hi d).fine := by
+  unfold hitUpdate at h ⊢
+  split
+  · rename_i hh; simp [hh] at h
+  · rename_i hh
+    rw [if_neg hh] at h
+    simp only [isHit, h, Bool.not_false, Bool.and_true, decide_eq_true_eq] at hh
+    omega
+
+theorem okZip_self {ds : List Dim} (h : ∀ d ∈ ds, DimOk d) : OkZip ds (ds.map (·.opt)) := by
+  refine ⟨by simp, ?_⟩
+  intro q hq
+  rw [List.zip_map_right] at hq
+  obtain ⟨⟨a, b⟩, hab, rfl⟩ := List.mem_map.mp hq
+  have hab' := List.of_mem_zip hab
+  have : a = b := by
+    have := List.mem_iff_getElem.mp hab
+    obtain ⟨i, hi, he⟩ := this
+    simp at he
+    rw [← he.1, ← he.2]
+  subst this
+  exact h a hab'.1
+
+theorem okZip_map_fine (g : Dim → Dim) (hg : ∀ d, (g d).fine = d.fine) :
+    ∀ (ds : List Dim) (c : List Nat), OkZip (ds.map g) c → OkZip ds c := by
+  intro ds
+  induction ds with
+  | nil => intro c h; exact ⟨by simpa using h.1, by intro q hq; simp at hq⟩
+  | cons d ds ih =>
+    intro c ⟨hl, hz⟩
+    cases c with
+    | nil => simp at hl
+    | cons o c =>
+      have hl' : c.length = (ds.map g).length := by simpa using hl
+      obtain ⟨_, ihz⟩ := ih c ⟨hl', fun q hq => hz q (by simp only [List.map_cons, List.zip_cons_cons]; exact List.mem_cons_of_mem _ hq)⟩
+      refine ⟨by simpa using hl, ?_⟩
+      intro q hq
+      simp only [List.zip_cons_cons, List.mem_cons] at hq
+      rcases hq with rfl | hq
+      · have := hz (g d, o) (by simp)
+        rw [hg] at this
+        exact this
+      · exact ihz q hq
+
+theorem pickD_ok (lo hi : Nat) (hlh : lo ≤ hi) (hhi : 1 ≤ hi) :
+    ∀ (ds : List Dim) (bits : List Bool),
+      (∀ d ∈ ds, DimOk d ∧ (d.found = false → hi < d.fine)) → bits.length = ds.length →
+      OkZip ds (pickD lo hi ds bits) := by
+  intro ds
+  induction ds with
+  | nil => intro bits _ _; exact ⟨by cases bits <;> simp [pickD], by intro q hq; simp at hq⟩
+  | cons d ds ih =>
+    intro bits hd hl
+    cases bits with
+    | nil => simp at hl
+    | cons b bs =>
+      have hl' : bs.length = ds.length := by simpa using hl
+      obtain ⟨ihl, ihz⟩ := ih bs (fun d' hd' => hd d' (List.mem_cons_of_mem _ hd')) hl'
+      obtain ⟨hdo, hdf⟩ := hd d List.mem_cons_self
+      refine ⟨by simp [pickD, ihl], ?_⟩
+      intro q hq
+      simp only [pickD, List.zip_cons_cons, List.mem_cons] at hq
+      rcases hq with rfl | hq
+      · simp only
+        unfold DimOk at hdo
+        cases hf : d.found with
+        | true => simp; omega
+        | false =>
+          have := hdf hf
+          cases b <;> simp <;> omega
+      · exact ihz q hq
+
+theorem perms_length : ∀ (n : Nat) (bits : List Bool), bits ∈ perms n → bits.length = n := by
+  intro n
+  induction n with
+  | zero => intro bits h; simp [perms] at h; simp [h]
+  | succ n ih =>
+    intro bits h
+    simp only [perms, List.mem_flatMap, List.mem_cons, List.not_mem_nil, or_false] at h
+    obtain ⟨rest, hr, rfl | rfl⟩ := h <;> simp [ih rest hr]
+
+theorem searchPerms_mem (P : List Nat → Prop) (target : Int) :
+    ∀ (cands : List (List Nat)) (dist : Int) (opt : List Nat),
+      P opt → (∀ s ∈ cands, P s) → P (searchPerms target cands dist opt) := by
+  intro cands
+  induction cands with
+  | nil => intro _ opt h _; exact h
+  | cons s rest ih =>
+    intro dist opt hopt hc
+    unfold searchPerms
+    split
+    · exact ih _ _ (hc s List.mem_cons_self) (fun s' hs' => hc s' (List.mem_cons_of_mem _ hs'))
+    · exact ih _ _ hopt (fun s' hs' => hc s' (List.mem_cons_of_mem _ hs'))
+
+/-- loop invariant ⇒ any answer of the loop is, axis by axis, within `[1, fine]` -/
+theorem dcdLoop_ok (root : Nat → Nat → Nat → Nat × Nat) (hroot : RootOk root) (target nd fineProd : Nat)
+    (ht : 1 ≤ target) :
+    ∀ (fuel it : Nat) (dims : List Dim) (c : List Nat), dims.length = nd → (∀ d ∈ dims, DimOk d) →
+      dcdLoop root target nd fineProd fuel it dims = .ok c → OkZip dims c := by
+  intro fuel
+  induction fuel with
+  | zero => intro it dims c _ _ h; simp [dcdLoop] at h
+  | succ fuel ih =>
+    intro it dims c hlen hok h
+    unfold dcdLoop at h
+    split at h
+    · split at h
+      · cases h
+      · injection h with h; subst h; exact okZip_self hok
+    · simp only at h
+      obtain ⟨hr1, hr2⟩ := hroot (dims.countP (fun d => !d.found)) target (prodL (dims.map (·.opt))) ht
+      have hok' : ∀ d ∈ dims.map (hitUpdate (root (dims.countP (fun d => !d.found)) target
+          (prodL (dims.map (·.opt)))).2), DimOk d := by
+        intro d hd
+        obtain ⟨d0, hd0, rfl⟩ := List.mem_map.mp hd
+        exact (hitUpdate_ok (hok d0 hd0) hr2).1
+      have transport : ∀ (hi : Nat) (c : List Nat), OkZip (dims.map (hitUpdate hi)) c → OkZip dims c :=
+        fun hi c => okZip_map_fine (hitUpdate hi) (by intro d; unfold hitUpdate; split <;> rfl) dims c
+      split at h
+      · exact transport _ c (ih (it + 1) _ c (by simpa using hlen) hok' h)
+      · split at h
+        · cases h
+        · injection h with h
+          subst h
+          apply transport
+          apply searchPerms_mem (OkZip _)
+          · exact okZip_self hok'
+          · intro s hs
+            obtain ⟨bits, hb, rfl⟩ := List.mem_map.mp hs
+            apply pickD_ok _ _ hr1 hr2
+            · intro d hd
+              refine ⟨hok' d hd, ?_⟩
+              intro hf
+              obtain ⟨d0, _, rfl⟩ := List.mem_map.mp hd
+              exact hitUpdate_unfound hf
+            · rw [perms_length nd bits hb]; simpa using hlen.symm
+
+/-! #### the exact integer root -/
+
+theorem rootFloorAux_spec (k p q : Nat) : ∀ n, rootFloorAux k p q n ≤ n ∧
+    (rootFloorAux k p q n = 0 ∨ rootFloorAux k p q n ^ k * q ≤ p) ∧
+    (∀ m, rootFloorAux k p q n < m → m ≤ n → p < m ^ k * q) := by
+  intro n
+  induction n with
+  | zero => exact ⟨Nat.le_refl _, Or.inl rfl, by intro m h1 h2; simp [rootFloorAux] at h1; omega⟩
+  | succ n ih =>
+    unfold rootFloorAux
+    split
+    · rename_i h
+      exact ⟨Nat.le_refl _, Or.inr h, by intro m h1 h2; omega⟩
+    · rename_i h
+      obtain ⟨i1, i2, i3⟩ := ih
+      refine ⟨by omega, i2, ?_⟩
+      intro m h1 h2
+      by_cases hm : m = n + 1
+      · subst hm; omega
+      · exact i3 m h1 (by omega)
+
+/-- characterisation of the integer root: `⌊s⌋^k·q ≤ p < (⌊s⌋+1)^k·q` for `k, q ≥ 1` -/
+theorem rootFloor_spec {k p q : Nat} (hk : 1 ≤ k) (hq : 1 ≤ q) :
+    rootFloor k p q ^ k * q ≤ p ∧ p < (rootFloor k p q + 1) ^ k * q := by
+  obtain ⟨h1, h2, h3⟩ := rootFloorAux_spec k p q p
+  unfold rootFloor
+  constructor
+  · rcases h2 with h | h
+    · rw [h, Nat.zero_pow (by omega)]; simp
+    · exact h
+  · by_cases hle : rootFloorAux k p q p + 1 ≤ p
+    · exact h3 _ (by omega) hle
+    · have heq : rootFloorAux k p q p = p := by omega
+      rw [heq]
+      have e1 : p + 1 ≤ (p + 1) ^ k := by
+        calc p + 1 = (p + 1) ^ 1 := (Nat.pow_one _).symm
+          _ ≤ (p + 1) ^ k := Nat.pow_le_pow_right (by omega) hk
+      have e2 : (p + 1) ^ k * 1 ≤ (p + 1) ^ k * q := Nat.mul_le_mul_left _ hq
+      omega
+
+theorem rootCeil_spec {k p q : Nat} (hk : 1 ≤ k) (hq : 1 ≤ q) (hp : 1 ≤ p) :
+    p ≤ rootCeil k p q ^ k * q ∧ (rootCeil k p q - 1) ^ k * q < p ∧ 1 ≤ rootCeil k p q := by
+  obtain ⟨h1, h2⟩ := rootFloor_spec (p := p) hk hq
+  unfold rootCeil
+  split
+  · rename_i he
+    have hpos : 1 ≤ rootFloor k p q := by
+      rcases Nat.eq_zero_or_pos (rootFloor k p q) with h0 | h0
+      · rw [h0, Nat.zero_pow (by omega)] at he; omega
+      · exact h0
+    refine ⟨by omega, ?_, hpos⟩
+    have hlt : rootFloor k p q - 1 < rootFloor k p q := by omega
+    have := Nat.pow_lt_pow_left hlt (show k ≠ 0 by omega)
+    have := Nat.mul_lt_mul_of_pos_right this (show 0 < q by omega)
+    omega
+  · rename_i hne
+    refine ⟨by omega, ?_, by omega⟩
+    simp only [Nat.add_sub_cancel]
+    omega
+
+theorem exactRoot_ok : RootOk exactRoot := by
+  intro k p q hp
+  simp only [exactRoot, rootCeil]
+  split
+  · rename_i he
+    refine ⟨Nat.le_refl _, ?_⟩
+    rcases Nat.eq_zero_or_pos (rootFloor k p q) with h0 | h0
+    · -- ⌊s⌋ = 0 with 0^k·q = p ≥ 1 forces k = 0, but then ⌊s⌋ = p ≥ 1
+      exfalso
+      rw [h0] at he
+      cases k with
+      | zero =>
+        obtain ⟨_, _, h3⟩ := rootFloorAux_spec 0 p q p
+        have := h3 p (by unfold rootFloor at h0; omega) (Nat.le_refl _)
+        simp at he this
+        omega
+      | succ k => simp at he; omega
+    · exact h0
+  · omega
+
+/-! #### the loop never reaches the "bug somewhere" error -/
+
+theorem isHit_unfound {hi : Nat} {d : Dim} (h : isHit hi d = true) : d.found = false := by
+  unfold isHit at h
+  cases hf : d.found <;> simp [hf] at h ⊢
+
+theorem countP_hitUpdate (hi : Nat) : ∀ (ds : List Dim),
+    ds.countP (·.found) ≤ (ds.map (hitUpdate hi)).countP (·.found) ∧
+    ((∃ d ∈ ds, isHit hi d = true) →
+      ds.countP (·.found) + 1 ≤ (ds.map (hitUpdate hi)).countP (·.found)) := by
+  intro ds
+  induction ds with
+  | nil => exact ⟨Nat.le_refl _, by rintro ⟨d, hd, _⟩; simp at hd⟩
+  | cons d ds ih =>
+    obtain ⟨ih1, ih2⟩ := ih
+    simp only [List.map_cons, List.countP_cons]
+    by_cases hh : isHit hi d = true
+    · have hf := isHit_unfound hh
+      have hu : (hitUpdate hi d).found = true := by unfold hitUpdate; rw [if_pos hh]
+      simp only [hf, hu]
+      refine ⟨?_, fun _ => ?_⟩ <;> simp only [Bool.false_eq_true, ↓reduceIte] <;> omega
+    · have hu : hitUpdate hi d = d := by unfold hitUpdate; rw [if_neg hh]
+      rw [hu]
+      refine ⟨by omega, ?_⟩
+      rintro ⟨d', hd', hh'⟩
+      rcases List.mem_cons.mp hd' with rfl | hd'
+      · exact absurd hh' hh
+      · have := ih2 ⟨d', hd', hh'⟩
+        omega
+
+theorem dcdLoop_noerr (root : Nat → Nat → Nat → Nat × Nat) (target nd fineProd : Nat) :
+    ∀ (fuel it : Nat) (dims : List Dim), dims.length = nd → it ≤ dims.countP (·.found) →
+      nd + 2 ≤ fuel + dims.countP (·.found) →
+      ∃ c, dcdLoop root target nd fineProd fuel it dims = .ok c := by
+  intro fuel
+  induction fuel with
+  | zero =>
+    intro it dims hlen _ hf
+    have := List.countP_le_length (p := fun d : Dim => d.found) (l := dims)
+    omega
+  | succ fuel ih =>
+    intro it dims hlen hit hf
+    have hcl := List.countP_le_length (p := fun d : Dim => d.found) (l := dims)
+    unfold dcdLoop
+    split
+    · rw [if_neg (by omega)]
+      exact ⟨_, rfl⟩
+    · rename_i hcond
+      simp only
+      have hnot : ¬ (dims.all (·.found) = true) := by
+        intro h; apply hcond; simp [h]
+      have hlt : dims.countP (·.found) < dims.length := by
+        rcases Nat.lt_or_ge (dims.countP (·.found)) dims.length with h | h
+        · exact h
+        · exfalso
+          apply hnot
+          have he : dims.countP (·.found) = dims.length := by omega
+          rw [List.all_eq_true]
+          exact List.countP_eq_length.mp he
+      split
+      · rename_i hany
+        obtain ⟨b, hb, hbt⟩ := List.any_eq_true.mp hany
+        have hb' := List.mem_of_mem_drop hb
+        obtain ⟨d, hd, rfl⟩ := List.mem_map.mp hb'
+        have hinc := (countP_hitUpdate _ dims).2 ⟨d, hd, by simpa using hbt⟩
+        exact ih (it + 1) _ (by simpa using hlen) (by omega) (by omega)
+      · rw [if_neg (by omega)]
+        exact ⟨_, rfl⟩
+
+theorem prodL_bounds : ∀ (fine c : List Nat) (a b : Nat), c.length = fine.length →
+    (∀ q ∈ fine.zip c, 1 ≤ q.2 ∧ q.2 ≤ q.1) → 1 ≤ a → a ≤ b →
+    1 ≤ c.foldl (· * ·) a ∧ c.foldl (· * ·) a ≤ fine.foldl (· * ·) b := by
+  intro fine
+  induction fine with
+  | nil => intro c a b hl _ ha hab; cases c with
+    | nil => exact ⟨ha, hab⟩
+    | cons _ _ => simp at hl
+  | cons f fine ih =>
+    intro c a b hl hz ha hab
+    cases c with
+    | nil => simp at hl
+    | cons o c =>
+      have ho := hz (f, o) (by simp)
+      simp only [List.foldl_cons]
+      apply ih c (a * o) (b * f) (by simpa using hl)
+        (fun q hq => hz q (by simp only [List.zip_cons_cons]; exact List.mem_cons_of_mem _ hq))
+      · exact Nat.mul_le_mul ha ho.1
+      · exact Nat.mul_le_mul hab ho.2
+
+theorem dcd_ok (root : Nat → Nat → Nat → Nat × Nat) (hroot : RootOk root) (target : Nat) (fine : List Nat)
+    (hf : ∀ f ∈ fine, 1 ≤ f) :
+    ∃ c, dcd root target fine = .ok c ∧ c.length = fine.length ∧
+      ∀ q ∈ fine.zip c, 1 ≤ q.2 ∧ q.2 ≤ q.1 := by
+  have hdims : ∀ d ∈ fine.map (fun f => ({ fine := f, opt := 1, found := false } : Dim)), DimOk d := by
+    intro d hd
+    obtain ⟨f, hfm, rfl⟩ := List.mem_map.mp hd
+    exact ⟨Nat.le_refl _, hf f hfm⟩
+  have hcount : (fine.map (fun f => ({ fine := f, opt := 1, found := false } : Dim))).countP (·.found) = 0 := by
+    rw [List.countP_eq_zero]
+    intro d hd
+    obtain ⟨f, _, rfl⟩ := List.mem_map.mp hd
+    simp
+  have hlen0 : (fine.map (fun f => ({ fine := f, opt := 1, found := false } : Dim))).length = fine.length := by
+    simp
+  obtain ⟨c, hc⟩ := dcdLoop_noerr root (max 1 (min target (prodL fine))) fine.length (prodL fine)
+    (fine.length + 2) 0 (fine.map (fun f => ({ fine := f, opt := 1, found := false } : Dim))) hlen0
+    (by omega) (by omega)
+  refine ⟨c, hc, ?_⟩
+  obtain ⟨hl, hz⟩ := dcdLoop_ok root hroot (max 1 (min target (prodL fine))) fine.length (prodL fine)
+    (by omega) (fine.length + 2) 0 _ c hlen0 hdims hc
+  refine ⟨by simpa using hl, ?_⟩
+  intro q hq
+  obtain ⟨i, hi, he⟩ := List.mem_iff_getElem.mp hq
+  have hi' : i < ((fine.map (fun f => ({ fine := f, opt := 1, found := false } : Dim))).zip c).length := by
+    simpa using hi
+  have := hz _ (List.getElem_mem hi')
+  simp only [List.getElem_zip, List.getElem_map] at this he
+  rw [← he]
+  exact this
+
+/-! ### sign rule of the `faces=True` grids -/
+
+theorem firstOccAux_length : ∀ (l seen : List Nat), (firstOccAux seen l).length = l.length := by
+  intro l
+  induction l with
+  | nil => intro _; rfl
+  | cons x l ih => intro seen; simp [firstOccAux, ih]
+
+theorem firstOccAux_append : ∀ (a b seen : List Nat),
+    firstOccAux seen (a ++ b) = firstOccAux seen a ++ firstOccAux (a.reverse ++ seen) b := by
+  intro a
+  induction a with
+  | nil => intro b seen; rfl
+  | cons x a ih =>
+    intro b seen
+    simp only [List.cons_append, firstOccAux, ih, List.reverse_cons, List.append_assoc,
+      List.cons_append, List.nil_append]
+
+theorem flatten_signCols (first other : Int) : ∀ (cols : List (List Nat)) (seen : List Nat),
+    (signCols first other seen cols).flatten
+      = (firstOccAux seen cols.flatten).map (fun b => if b then first else other) := by
+  intro cols
+  induction cols with
+  | nil => intro _; rfl
+  | cons col rest ih =>
+    intro seen
+    simp only [signCols, List.flatten_cons, ih, firstOccAux_append, List.map_append]
+
+theorem signCols_shape (first other : Int) : ∀ (cols : List (List Nat)) (seen : List Nat),
+    (signCols first other seen cols).map List.length = cols.map List.length := by
+  intro cols
+  induction cols with
+  | nil => intro _; rfl
+  | cons col rest ih =>
+    intro seen
+    simp only [signCols, List.map_cons, List.length_map, firstOccAux_length, ih]
+
+/-- position `p` is marked "first" iff its value was not seen before and does not occur earlier -/
+theorem firstOccAux_spec : ∀ (l seen : List Nat) (p : Nat), p < l.length →
+    ((firstOccAux seen l).getD p false = true ↔
+      l.getD p 0 ∉ seen ∧ l.getD p 0 ∉ l.take p) := by
+  intro l
+  induction l with
+  | nil => intro _ p hp; simp at hp
+  | cons x l ih =>
+    intro seen p hp
+    cases p with
+    | zero => simp [firstOccAux]
+    | succ p =>
+      have hp' : p < l.length := by simpa using hp
+      have := ih (x :: seen) p hp'
+      simp only [firstOccAux, List.getD_cons_succ, List.take_succ_cons, List.mem_cons, not_or] at this ⊢
+      rw [this]
+      constructor
+      · rintro ⟨⟨h1, h2⟩, h3⟩; exact ⟨h2, h1, h3⟩
+      · rintro ⟨h2, h1, h3⟩; exact ⟨⟨h1, h2⟩, h3⟩
+
+/-- recursive form of a row sum -/
+def sumAt (v : Nat) : List Nat → List Int → Int
+  | x :: xs, s :: ss => (if x == v then s else 0) + sumAt v xs ss
+  | _, _ => 0
+
+theorem foldl_add_acc : ∀ (l : List (Nat × Int)) (acc : Int),
+    l.foldl (fun a p => a + p.2) acc = acc + l.foldl (fun a p => a + p.2) 0 := by
+  intro l
+  induction l with
+  | nil => intro acc; simp
+  | cons p l ih =>
+    intro acc
+    simp only [List.foldl_cons]
+    rw [ih (acc + p.2), ih (0 + p.2)]
+    omega
+
+theorem rowSum_eq_sumAt (cols : List (List Nat)) (sg : List (List Int)) (v : Nat) :
+    rowSum cols sg v = sumAt v cols.flatten sg.flatten := by
+  unfold rowSum
+  generalize cols.flatten = xs
+  generalize sg.flatten = ss
+  induction xs generalizing ss with
+  | nil => simp [sumAt]
+  | cons x xs ih =>
+    cases ss with
+    | nil => simp [sumAt]
+    | cons s ss =>
+      simp only [List.zip_cons_cons, List.filter_cons, sumAt]
+      by_cases hx : (x == v) = true
+      · simp only [hx, if_true, List.foldl_cons]
+        rw [foldl_add_acc, ih ss]
+        omega
+      · simp only [hx, Bool.false_eq_true, if_false]
+        rw [ih ss]
+        omega
+
+/-- sum of the coded signs over all occurrences of `v`: the first occurrence carries `a`, every later
+    one `b` (`b = ±1`) -/
+theorem sumAt_firstOcc (a b : Int) (hb : b = 1 ∨ b = -1) (v : Nat) : ∀ (xs seen : List Nat),
+    sumAt v xs ((firstOccAux seen xs).map (fun t => if t then a else b))
+      = if v ∈ seen then (xs.count v : Int) * b
+        else if xs.count v = 0 then 0 else a + ((xs.count v : Int) - 1) * b := by
+  intro xs
+  induction xs with
+  | nil => intro seen; simp [sumAt]
+  | cons x xs ih =>
+    intro seen
+    simp only [firstOccAux, List.map_cons, sumAt, ih (x :: seen), List.mem_cons, List.count_cons]
+    by_cases hx : x = v
+    · subst hx
+      simp only [beq_self_eq_true, if_true, true_or]
+      by_cases hs : x ∈ seen
+      · have hc : seen.contains x = true := List.contains_iff_mem.mpr hs
+        simp only [hs, hc, Bool.not_true, if_true]
+        rcases hb with rfl | rfl <;> simp <;> omega
+      · have hc : seen.contains x = false := by
+          apply Bool.eq_false_iff.mpr; intro h; exact hs (List.contains_iff_mem.mp h)
+        simp only [hs, hc, Bool.not_false, if_false]
+        rcases hb with rfl | rfl <;> simp <;> omega
+    · have hbeq : (x == v) = false := by simpa using hx
+      have hne : ¬ (v = x) := fun h => hx h.symm
+      simp only [hbeq, hne, false_or, Bool.false_eq_true, if_false]
+      by_cases hs : v ∈ seen <;> simp [hs]
+
+theorem rowSum_signCols (a b : Int) (hb : b = 1 ∨ b = -1) (cols : List (List Nat)) (v : Nat) :
+    rowSum cols (signCols a b [] cols) v
+      = if cols.flatten.count v = 0 then 0 else a + ((cols.flatten.count v : Int) - 1) * b := by
+  rw [rowSum_eq_sumAt, flatten_signCols, sumAt_firstOcc a b hb v cols.flatten []]
+  simp
+
+theorem not_orientationBad {cf : List (List Nat)} {sg : List (List Int)} {nf : Nat}
+    (h : orientationBad cf sg nf = false) : ∀ v, v < nf → (rowSum cf sg v).natAbs ≤ 1 := by
+  intro v hv
+  unfold orientationBad at h
+  rcases Nat.lt_or_ge 1 (rowSum cf sg v).natAbs with hlt | hge
+  · have : (List.range nf).any (fun lf => decide (1 < (rowSum cf sg lf).natAbs)) = true :=
+      List.any_eq_true.mpr ⟨v, List.mem_range.mpr hv, by simpa using hlt⟩
+    rw [this] at h; cases h
+  · exact hge
+
+/-! ### edges of the 3-d → 2-d variant -/
+
+theorem getD_idxOf_map {α : Type} (g : α → Nat) (d : α) (l : List α) {k : Nat} (hk : k ∈ l.map g) :
+    g (l.getD ((l.map g).idxOf k) d) = k := by
+  have hlt : (l.map g).idxOf k < (l.map g).length := List.idxOf_lt_length_iff.mpr hk
+  have hlt' : (l.map g).idxOf k < l.length := by simpa using hlt
+  have := List.getElem_idxOf hlt
+  rw [List.getElem_map] at this
+  rw [List.getD_eq_getElem?_getD, List.getElem?_eq_getElem hlt']
+  simpa using this
+
+theorem cyclicEdges_map (g : Nat → Nat) (col : List Nat) :
+    (cyclicEdges col).map (fun e => (g e.1, g e.2)) = cyclicEdges (col.map g) := by
+  unfold cyclicEdges
+  rw [← List.map_drop, ← List.map_take, ← List.map_append, List.zip_map]
+  rfl
+
+/-- the undirected-edge key determines the unordered pair (nodes below the radix) -/
+theorem edgeKey_inj {m : Nat} {e e' : Nat × Nat} (h1 : e.1 < m) (h2 : e.2 < m) (h1' : e'.1 < m)
+    (h2' : e'.2 < m) (h : edgeKey m e = edgeKey m e') :
+    (e.1 = e'.1 ∧ e.2 = e'.2) ∨ (e.1 = e'.2 ∧ e.2 = e'.1) := by
+  unfold edgeKey at h
+  have hmax : max e.1 e.2 < m := by omega
+  have hmax' : max e'.1 e'.2 < m := by omega
+  have hdiv : ∀ (a b : Nat), b < m → (a * m + b) / m = a ∧ (a * m + b) % m = b := by
+    intro a b hb
+    have hm : 0 < m := by omega
+    constructor
+    · rw [Nat.mul_comm, Nat.mul_add_div hm, Nat.div_eq_of_lt hb]; omega
+    · rw [Nat.mul_comm, Nat.mul_add_mod, Nat.mod_eq_of_lt hb]
+  have ha := (hdiv (min e.1 e.2) (max e.1 e.2) hmax).1
+  have hb := (hdiv (min e.1 e.2) (max e.1 e.2) hmax).2
+  have ha' := (hdiv (min e'.1 e'.2) (max e'.1 e'.2) hmax').1
+  have hb' := (hdiv (min e'.1 e'.2) (max e'.1 e'.2) hmax').2
+  rw [h] at ha hb
+  have hmin : min e.1 e.2 = min e'.1 e'.2 := by omega
+  have hmx : max e.1 e.2 = max e'.1 e'.2 := by omega
+  omega
+
+theorem mem_cyclicEdges {col : List Nat} {e : Nat × Nat} (h : e ∈ cyclicEdges col) :
+    e.1 ∈ col ∧ e.2 ∈ col := by
+  unfold cyclicEdges at h
+  have := List.of_mem_zip h
+  refine ⟨this.1, ?_⟩
+  rcases List.mem_append.mp this.2 with h2 | h2
+  · exact List.mem_of_mem_drop h2
+  · exact List.mem_of_mem_take h2
+
+/-! ### `partition_coordinates`: box search -/
+
+/-- hypothesis on an axis and a coordinate: at least one box, and the coordinate lies in `[lo, hi)` -/
+def AxisOk (a : Axis) (x : Rat) : Prop := 1 ≤ a.c ∧ a.lo ≤ x ∧ x < a.hi
+
+theorem inBox_iff {a : Axis} {k : Nat} {x : Rat} : inBox a k x = true ↔
+    a.lo + (a.hi - a.lo) / (a.c : Rat) * (k : Rat) ≤ x ∧
+    x < a.lo + (a.hi - a.lo) / (a.c : Rat) * ((k : Rat) + 1) := by
+  simp [inBox]
+
+theorem dx_pos {a : Axis} {x : Rat} (h : AxisOk a x) : 0 < (a.hi - a.lo) / (a.c : Rat) := by
+  obtain ⟨hc, h1, h2⟩ := h
+  have hc0 : (0 : Rat) < (a.c : Rat) := by exact_mod_cast hc
+  rw [Rat.div_def]
+  apply Rat.mul_pos
+  · grind
+  · exact Rat.inv_pos.mpr hc0
+
+/-- along one axis there is a box containing the coordinate … -/
+theorem inBox_exists {a : Axis} {x : Rat} (h : AxisOk a x) : ∃ k, k < a.c ∧ inBox a k x = true := by
+  have hdx := dx_pos h
+  obtain ⟨hc, h1, h2⟩ := h
+  have hc0 : (0 : Rat) < (a.c : Rat) := by exact_mod_cast hc
+  have hne : (a.c : Rat) ≠ 0 := by grind
+  have htop : a.lo + (a.hi - a.lo) / (a.c : Rat) * (a.c : Rat) = a.hi := by grind
+  have key : ∀ n : Nat, n ≤ a.c → x < a.lo + (a.hi - a.lo) / (a.c : Rat) * (n : Rat) →
+      ∃ k, k < n ∧ inBox a k x = true := by
+    intro n
+    induction n with
+    | zero =>
+      intro _ hx
+      exfalso
+      have : a.lo + (a.hi - a.lo) / (a.c : Rat) * ((0 : Nat) : Rat) = a.lo := by simp; grind
+      rw [this] at hx
+      grind
+    | succ n ih =>
+      intro hn hx
+      by_cases hlt : x < a.lo + (a.hi - a.lo) / (a.c : Rat) * (n : Rat)
+      · obtain ⟨k, hk, hb⟩ := ih (by omega) hlt
+        exact ⟨k, by omega, hb⟩
+      · refine ⟨n, by omega, inBox_iff.mpr ⟨by grind, ?_⟩⟩
+        have : ((n + 1 : Nat) : Rat) = (n : Rat) + 1 := by push_cast; rfl
+        rw [this] at hx
+        exact hx
+  exact key a.c (Nat.le_refl _) (by rw [htop]; exact h2)
+
+/-- … and only one -/
+theorem inBox_unique {a : Axis} {x : Rat} (h : AxisOk a x) {k k' : Nat}
+    (hk : inBox a k x = true) (hk' : inBox a k' x = true) : k = k' := by
+  have hdx := dx_pos h
+  have aux : ∀ {k k' : Nat}, inBox a k x = true → inBox a k' x = true → ¬ k < k' := by
+    intro k k' hk hk' hlt
+    obtain ⟨_, u⟩ := inBox_iff.mp hk
+    obtain ⟨l, _⟩ := inBox_iff.mp hk'
+    have hle : ((k + 1 : Nat) : Rat) ≤ (k' : Rat) := by exact_mod_cast hlt
+    have := Rat.mul_le_mul_of_nonneg_left hle (Rat.le_of_lt hdx)
+    have e : ((k + 1 : Nat) : Rat) = (k : Rat) + 1 := by push_cast; rfl
+    rw [e] at this
+    grind
+  have h1 := aux hk hk'
+  have h2 := aux hk' hk
+  omega
+
+theorem prodL_cons (c : Nat) (cs : List Nat) : prodL (c :: cs) = c * prodL cs := by
+  have gen : ∀ (l : List Nat) (a : Nat), l.foldl (· * ·) a = a * l.foldl (· * ·) 1 := by
+    intro l
+    induction l with
+    | nil => intro a; simp
+    | cons x l ih => intro a; simp only [List.foldl_cons]; rw [ih (a * x), ih (1 * x)]; simp [Nat.mul_assoc]
+  unfold prodL
+  simp only [List.foldl_cons]
+  rw [gen cs (1 * c)]
+  simp
+
+/-- `np.ravel_multi_index` -/
+def ravel : List Nat → List Nat → Nat
+  | _ :: cs, k :: ks => k * prodL cs + ravel cs ks
+  | _, _ => 0
+
+theorem ravel_lt : ∀ (cs ks : List Nat), ks.length = cs.length → (∀ q ∈ ks.zip cs, q.1 < q.2) →
+    ravel cs ks < prodL cs ∧ unravel cs (ravel cs ks) = ks := by
+  intro cs
+  induction cs with
+  | nil => intro ks hl _; cases ks with
+    | nil => simp [ravel, prodL, unravel]
+    | cons _ _ => simp at hl
+  | cons c cs ih =>
+    intro ks hl hz
+    cases ks with
+    | nil => simp at hl
+    | cons k ks =>
+      have hk : k < c := hz (k, c) (by simp)
+      obtain ⟨i1, i2⟩ := ih ks (by simpa using hl)
+        (fun q hq => hz q (by simp only [List.zip_cons_cons]; exact List.mem_cons_of_mem _ hq))
+      have hP : 0 < prodL cs := by omega
+      simp only [ravel, unravel, prodL_cons]
+      refine ⟨?_, ?_⟩
+      · have : (k + 1) * prodL cs ≤ c * prodL cs := Nat.mul_le_mul_right _ (by omega)
+        rw [Nat.succ_mul] at this
+        omega
+      · have e1 : (k * prodL cs + ravel cs ks) / prodL cs = k := by
+          rw [Nat.mul_comm, Nat.mul_add_div hP, Nat.div_eq_of_lt i1]; omega
+        have e2 : (k * prodL cs + ravel cs ks) % prodL cs = ravel cs ks := by
+          rw [Nat.mul_comm, Nat.mul_add_mod, Nat.mod_eq_of_lt i1]
+        rw [e1, e2, i2]
+
+theorem unravel_inj : ∀ (cs : List Nat) (i j : Nat), i < prodL cs → j < prodL cs →
+    unravel cs i = unravel cs j → i = j := by
+  intro cs
+  induction cs with
+  | nil => intro i j hi hj _; simp [prodL] at hi hj; omega
+  | cons c cs ih =>
+    intro i j hi hj h
+    simp only [unravel, List.cons.injEq] at h
+    obtain ⟨h1, h2⟩ := h
+    rw [prodL_cons] at hi hj
+    have hP : 0 < prodL cs := by
+      rcases Nat.eq_zero_or_pos (prodL cs) with h0 | h0
+      · rw [h0] at hi; simp at hi
+      · exact h0
+    have := ih (i % prodL cs) (j % prodL cs) (Nat.mod_lt _ hP) (Nat.mod_lt _ hP) h2
+    have ei := Nat.div_add_mod i (prodL cs)
+    have ej := Nat.div_add_mod j (prodL cs)
+    rw [h1, this] at ei
+    omega
+
+theorem unravel_length (cs : List Nat) : ∀ i, (unravel cs i).length = cs.length := by
+  induction cs with
+  | nil => intro i; rfl
+  | cons c cs ih => intro i; simp [unravel, ih]
+
+/-- every coordinate of the point lies inside the node extent of its axis (same number of axes) -/
+def AllOk : List Axis → List Rat → Prop
+  | a :: as, x :: xs => AxisOk a x ∧ AllOk as xs
+  | [], [] => True
+  | _, _ => False
+
+theorem hitAll_exists : ∀ (axes : List Axis) (xs : List Rat), AllOk axes xs →
+    ∃ ks, ks.length = axes.length ∧ (∀ q ∈ ks.zip (axes.map (·.c)), q.1 < q.2) ∧
+      hitAll axes ks xs = true := by
+  intro axes
+  induction axes with
+  | nil =>
+    intro xs h
+    cases xs with
+    | nil => exact ⟨[], rfl, by intro q hq; simp at hq, rfl⟩
+    | cons _ _ => simp [AllOk] at h
+  | cons a as ih =>
+    intro xs h
+    cases xs with
+    | nil => simp [AllOk] at h
+    | cons x xs =>
+      obtain ⟨ha, has⟩ := h
+      obtain ⟨ks, hl, hz, hh⟩ := ih xs has
+      obtain ⟨k, hk, hb⟩ := inBox_exists ha
+      refine ⟨k :: ks, by simp [hl], ?_, by simp [hitAll, hb, hh]⟩
+      intro q hq
+      simp only [List.map_cons, List.zip_cons_cons, List.mem_cons] at hq
+      rcases hq with rfl | hq
+      · exact hk
+      · exact hz q hq
+
+theorem hitAll_unique : ∀ (axes : List Axis) (xs : List Rat) (ks ks' : List Nat), AllOk axes xs →
+    hitAll axes ks xs = true → hitAll axes ks' xs = true → ks = ks' := by
+  intro axes
+  induction axes with
+  | nil =>
+    intro xs ks ks' _ h h'
+    cases xs <;> cases ks <;> cases ks' <;> simp [hitAll] at h h' ⊢
+  | cons a as ih =>
+    intro xs ks ks' hok h h'
+    cases xs with
+    | nil => simp [AllOk] at hok
+    | cons x xs =>
+      cases ks with
+      | nil => simp [hitAll] at h
+      | cons k ks =>
+        cases ks' with
+        | nil => simp [hitAll] at h'
+        | cons k' ks' =>
+          simp only [hitAll, Bool.and_eq_true] at h h'
+          rw [inBox_unique hok.1 h.1 h'.1, ih xs ks ks' hok.2 h.2 h'.2]
+
+/-- the overwrite loop returns the unique hit -/
+theorem foldl_last_hit (P : Nat → Bool) (i0 : Nat) : ∀ n, i0 < n → P i0 = true →
+    (∀ i, i < n → P i = true → i = i0) →
+    (List.range n).foldl (fun acc i => if P i then (i : Int) else acc) (-1) = (i0 : Int) := by
+  intro n
+  induction n with
+  | zero => intro h; omega
+  | succ n ih =>
+    intro hlt hP huniq
+    rw [List.range_succ, List.foldl_append]
+    simp only [List.foldl_cons, List.foldl_nil]
+    by_cases hn : i0 = n
+    · subst hn; rw [if_pos hP]
+    · have hPn : P n = false := by
+        apply Bool.eq_false_iff.mpr
+        intro h
+        exact hn (huniq n (by omega) h).symm
+      rw [hPn]
+      simp only [Bool.false_eq_true, if_false]
+      exact ih (by omega) hP (fun i hi hp => huniq i (by omega) hp)
+
+/-- a cell centre inside the node extent is assigned exactly one box, in range: the box containing it -/
+theorem assignBox_spec (axes : List Axis) (x : List Rat) (h : AllOk axes x) :
+    ∃ i : Nat, assignBox axes x = (i : Int) ∧ i < prodL (axes.map (·.c)) ∧
+      hitAll axes (unravel (axes.map (·.c)) i) x = true ∧
+      ∀ j, j < prodL (axes.map (·.c)) → hitAll axes (unravel (axes.map (·.c)) j) x = true → j = i := by
+  obtain ⟨ks, hl, hz, hh⟩ := hitAll_exists axes x h
+  obtain ⟨r1, r2⟩ := ravel_lt (axes.map (·.c)) ks (by simpa using hl) hz
+  have huniq : ∀ j, j < prodL (axes.map (·.c)) → hitAll axes (unravel (axes.map (·.c)) j) x = true →
+      j = ravel (axes.map (·.c)) ks := by
+    intro j hj hjh
+    have := hitAll_unique axes x _ ks h hjh hh
+    exact unravel_inj _ _ _ hj r1 (by rw [this, r2])
+  refine ⟨ravel (axes.map (·.c)) ks, ?_, r1, by rw [r2]; exact hh, huniq⟩
+  unfold assignBox
+  exact foldl_last_hit (fun i => hitAll axes (unravel (axes.map (·.c)) i) x) _ _ r1
+    (by show hitAll axes (unravel _ (ravel _ ks)) x = true; rw [r2]; exact hh) huniq
+
 end PorepyVerif.C22
